@@ -45,11 +45,23 @@ const NON_PLAIN: [&str; 34] = [
     "search meter", "meter", "length", "water", "7 m -> to_string_does_not_exist",
 ];
 
+/// Date patterns a user may add (datepatterns.txt in the working or config directory): slash and
+/// dot dates in two orders each, so that some literals match only the later pattern of a pair.
+const USER_PATTERNS: &str = "monthnum'/'fullday'/'fullyear\nfullday'/'monthnum'/'fullyear\nfullday'.'monthnum'.'fullyear\nmonthnum'.'fullday'.'fullyear\n";
+const DATE_LETTERS: [&str; 6] = ["#01/02/2020#", "#25/12/2020#", "#2020-01-05#", "#05.06.2020#", "#12.25.2020#", "3 m"];
+
+fn ctx_with_user_patterns() -> Context {
+    let mut c = fresh_ctx();
+    c.load_date_file(USER_PATTERNS);
+    c
+}
+
 pub struct C15 {
     fams: Fams,
     depth: u64,
     db_order: u32,
     pristine: Lazy<Context>,
+    pristine_dates: Lazy<Context>,
     reg_hash: Lazy<u64>,
 }
 
@@ -68,7 +80,8 @@ impl C15 {
         let d_tog = if thorough { 6 } else { 4 };
         fams.add("all histories over 6 queries + flag on + flag off", vec![TOG_LETTERS.pow(d_tog)]);
         fams.add("every conversion / command spelling between a plain result and a use of ans", vec![NON_PLAIN.len() as u64, 2]);
-        C15 { fams, depth, db_order, pristine: Lazy::new(), reg_hash: Lazy::new() }
+        fams.add("date literals on a context with overlapping user date patterns: all histories of depth 3", vec![(DATE_LETTERS.len() as u64).pow(3)]);
+        C15 { fams, depth, db_order, pristine: Lazy::new(), pristine_dates: Lazy::new(), reg_hash: Lazy::new() }
     }
 }
 
@@ -138,6 +151,8 @@ struct Stepper<'a> {
     transitions: u64,
     bad: Vec<(String, String)>,
     history: Vec<String>,
+    /// build the reference context anew before every step (not only for every history)
+    fresh_reference: Option<fn() -> Context>,
 }
 
 impl<'a> Stepper<'a> {
@@ -145,7 +160,7 @@ impl<'a> Stepper<'a> {
         let mut l = fresh_ctx();
         l.save_previous_result = flag;
         let fp0 = cheap_fingerprint(&l);
-        Stepper { l, p, flag, reg: None, fp0, states: vec![state_key(&None, flag)], transitions: 0, bad: vec![], history: vec![] }
+        Stepper { l, p, flag, reg: None, fp0, states: vec![state_key(&None, flag)], transitions: 0, bad: vec![], history: vec![], fresh_reference: None }
     }
 
     fn hist_text(&self) -> String {
@@ -169,6 +184,9 @@ impl<'a> Stepper<'a> {
         self.history.push(q.to_string());
         // subject: the public helper, on the long-lived context
         let got = rink_core::eval(&mut self.l, q);
+        if let Some(mk) = self.fresh_reference {
+            *self.p = mk();
+        }
         // reference: a pristine context evaluated through a shared reference, with only the
         // previous answer and the clock preset
         self.p.previous_result = self.reg.clone();
@@ -250,7 +268,7 @@ impl Space for C15 {
         Meta {
             id: "C15",
             level: "model_checking",
-            rule: format!("explicit-state exploration over a 16-query alphabet (one per reply kind and per way of touching ans: numbers, ans/_/ANS uses, an error, conversions, a definition lookup, units for, search, a time-valued result, a substance, a date, a unit list, an inline definition and a use of its name) with the feature flag on and off: every history up to depth {} is replayed on a freshly loaded real Context through rink_core::eval, and one long-lived Context is fed a de Bruijn sequence B(16,{}) (every length-{} window from a different non-initial state). Plus every history of depth {} over 6 queries and the two settings changes <flag on>/<flag off> made between queries on one context (initially off). Plus `2 m ; X ; ans` for 34 spellings X of conversions and commands (every base/digits/notation modifier, `to`/`in`, unit lists, date and temperature conversions, units for / factorize / search / definition lookups). Model = one register (ans) and the flag. At every transition: serialised reply == reply of a pristine context evaluated through a shared reference with previous_result := register; ans == register; registry sizes/settings unchanged; full Debug dump of the registry compared at the end of histories. state = (register value, dimensionality, flag)", self.depth, self.db_order, self.db_order, self.tog_depth()),
+            rule: format!("explicit-state exploration over a 16-query alphabet (one per reply kind and per way of touching ans: numbers, ans/_/ANS uses, an error, conversions, a definition lookup, units for, search, a time-valued result, a substance, a date, a unit list, an inline definition and a use of its name) with the feature flag on and off: every history up to depth {} is replayed on a freshly loaded real Context through rink_core::eval, and one long-lived Context is fed a de Bruijn sequence B(16,{}) (every length-{} window from a different non-initial state). Plus every history of depth {} over 6 queries and the two settings changes <flag on>/<flag off> made between queries on one context (initially off). Plus `2 m ; X ; ans` for 34 spellings X of conversions and commands (every base/digits/notation modifier, `to`/`in`, unit lists, date and temperature conversions, units for / factorize / search / definition lookups). Plus all depth-3 histories over 5 date literals and a number on a context that has user date patterns with overlapping readings loaded (reference: a pristine context with the same patterns). Model = one register (ans) and the flag. At every transition: serialised reply == reply of a pristine context evaluated through a shared reference with previous_result := register; ans == register; registry sizes/settings unchanged; full Debug dump of the registry compared at the end of histories. state = (register value, dimensionality, flag)", self.depth, self.db_order, self.db_order, self.tog_depth()),
             assumptions: vec![
                 "the model register is updated from the pristine context's reply, so the reference is exactly the statement's 'fresh context with the same previous answer'".into(),
                 "full registry dumps are compared at the end of every 16th history (every history in the thorough tier) and every 512 steps of the de Bruijn run; cheap size fingerprints at every transition".into(),
@@ -267,6 +285,9 @@ impl Space for C15 {
         if f < 2 {
             let letters = decode(d[1], &vec![ALPHA.len() as u64; self.hist_depth(f)]);
             format!("flag {}: {}", f == 0, letters.iter().map(|i| ALPHA[*i as usize].0).collect::<Vec<_>>().join(" ; "))
+        } else if f == 5 {
+            let letters = decode(d[0], &vec![DATE_LETTERS.len() as u64; 3]);
+            format!("user date patterns loaded: {}", letters.iter().map(|i| DATE_LETTERS[*i as usize]).collect::<Vec<_>>().join(" ; "))
         } else if f == 4 {
             format!("flag {}: 2 m ; {} ; ans", d[1] == 1, NON_PLAIN[d[0] as usize])
         } else if f == 3 {
@@ -288,6 +309,7 @@ impl Space for C15 {
     }
     fn reset(&mut self) {
         self.pristine.clear();
+        self.pristine_dates.clear();
     }
     fn coverage_extra(&self, agg: &Aggregate) -> Value {
         json!({
@@ -299,13 +321,24 @@ impl Space for C15 {
     }
     fn run(&mut self, idx: u64) -> CaseOut {
         let (f, d) = self.fams.locate(idx);
-        let flag = if f < 2 { f == 0 } else if f == 3 { false } else if f == 4 { d[1] == 1 } else { d[0] == 1 };
+        let flag = if f < 2 { f == 0 } else if f == 3 { false } else if f == 4 { d[1] == 1 } else if f == 5 { true } else { d[0] == 1 };
         let hist_depth = if f < 2 { self.hist_depth(f) } else { 0 };
         let thorough = self.depth >= 4;
         let tog_depth = if f == 3 { self.tog_depth() } else { 0 };
         let ref_hash = *self.reg_hash.get(|| hash64(&format!("{:?}", fresh_ctx().registry)));
-        let p = self.pristine.get(fresh_ctx);
+        if f == 5 {
+            // date parsing is where a `&Context` could hide a memory (a Cell): the reference context
+            // is built anew for every history, so that it cannot carry anything over either
+            self.pristine_dates.clear();
+        }
+        let p = if f == 5 { self.pristine_dates.get(ctx_with_user_patterns) } else { self.pristine.get(fresh_ctx) };
         let mut st = Stepper::new(p, flag);
+        if f == 5 {
+            st.fresh_reference = Some(ctx_with_user_patterns);
+            st.l.load_date_file(USER_PATTERNS);
+            st.fp0 = cheap_fingerprint(&st.l);
+            st.fp0.11 = flag;
+        }
         let mut full = 0u64;
         if f < 2 {
             let letters = decode(d[1], &vec![ALPHA.len() as u64; hist_depth]);
@@ -317,6 +350,11 @@ impl Space for C15 {
                 if st.full_dump_hash() != ref_hash {
                     st.bad.push(("database changed by a query (full dump)".into(), format!("after [{}]", st.hist_text())));
                 }
+            }
+        } else if f == 5 {
+            let letters = decode(d[0], &vec![DATE_LETTERS.len() as u64; 3]);
+            for l in letters {
+                st.step_q(DATE_LETTERS[l as usize], true);
             }
         } else if f == 4 {
             st.step_q("2 m", true);
@@ -356,7 +394,7 @@ impl Space for C15 {
                 st.bad.push(("database changed by a query (full dump)".into(), "end of de Bruijn run".to_string()));
             }
         }
-        let mut out = CaseOut::ok(if f < 2 { "history" } else if f == 3 { "history with flag changes" } else if f == 4 { "conversion spelling history" } else { "de Bruijn run" });
+        let mut out = CaseOut::ok(if f < 2 { "history" } else if f == 3 { "history with flag changes" } else if f == 4 { "conversion spelling history" } else if f == 5 { "history of date literals, user patterns" } else { "de Bruijn run" });
         out.keys = st.states.clone();
         out = out.count("transitions", st.transitions).count("histories", 1).count("full_dumps", full);
         // one report per distinct signature per history
